@@ -13,8 +13,8 @@
 (*   scheme/reg/blob.go:blobPutUploadChunked  ChInit Loop Fill Slice       *)
 (*        (the code's own variables: bufBytes PatchSend PatchR StatusR     *)
 (*        bufStart chunkStart chunkSize        Verify FinalR               *)
-(*        finalChunk retryCur chunkURL; the capacity of the slice is the   *)
-(*        explicit variable bufCap)                                        *)
+(*        finalChunk retryCur noProgress chunkURL; the capacity of the     *)
+(*        slice is the explicit variable bufCap)                           *)
 (*   scheme/reg/blob.go:blobUploadStatus      the GET sent by PatchR       *)
 (*   scheme/reg/blob.go:blobUploadCancel      Cancel CancelR               *)
 (*   internal/reghttp/http.go:Resp.next       Http: a 500/502/504/429/408  *)
@@ -73,7 +73,7 @@ VARIABLES
   boCur, boReset, \* clientHost.backoffCur / backoffReset
   \* ------------------------------------------------ blobPutUploadChunked
   hostChunk,   \* host.BlobChunk (raised by OCI-Chunk-Min-Length)
-  bufBytes, bufCap, bufStart, chunkStart, chunkSize, finalChunk, retryCur, chunkURL,
+  bufBytes, bufCap, bufStart, chunkStart, chunkSize, finalChunk, retryCur, noProgress, chunkURL,
   hashed,      \* everything that went through the digester (TeeReader)
   \* ------------------------------------------------ destination
   blobs,       \* digest -> content held by the target repository / layout
@@ -84,7 +84,7 @@ VARIABLES
 
 cvars == <<putURL, rdPos, readOnce, result, retD>>
 hvars == <<req, rsp, ret, tries, boCur, boReset>>
-lvars == <<hostChunk, bufBytes, bufCap, bufStart, chunkStart, chunkSize, finalChunk, retryCur, chunkURL, hashed>>
+lvars == <<hostChunk, bufBytes, bufCap, bufStart, chunkStart, chunkSize, finalChunk, retryCur, noProgress, chunkURL, hashed>>
 svars == <<blobs, sess, mounted, nPartial, nFault, nEarly, refused, minViol>>
 vars == <<cf, pc, cvars, hvars, lvars, svars, tmpFile>>
 
@@ -97,12 +97,15 @@ NoDig  == <<-1>>              \* no digest declared
 NoFile == <<-2>>
 H(c)   == c                   \* ideal hash
 
+\* declared descriptor: digest of the stream / of other content / of the prefix that has the
+\* declared size / none; size right, one more, one less (configurations keep it > 0), none
 DDig  == CASE cf.decl \in {"right", "sizeplus", "sizeminus", "digonly"} -> H(Src)
            [] cf.decl = "wrongdig" -> H(Other)
+           [] cf.decl = "prefix" -> H(SubSeq(Src, 1, cf.len - 1))
            [] OTHER -> NoDig
 DSize == CASE cf.decl \in {"right", "wrongdig", "sizeonly"} -> cf.len
-           [] cf.decl = "sizeplus" -> cf.len + 1
-           [] cf.decl = "sizeminus" -> cf.len - 1
+           [] cf.decl \in {"sizeplus", "sizeonlyplus"} -> cf.len + 1
+           [] cf.decl \in {"sizeminus", "sizeonlyminus", "prefix"} -> cf.len - 1
            [] OTHER -> 0
 DigValid   == DDig # NoDig
 \* validDesc in BlobPut: (d.Size > 0 && digest valid) || (d.Size == 0 && d.Digest == zeroDig)
@@ -137,7 +140,7 @@ Init ==
   /\ req = NoReq /\ rsp = NoReply /\ ret = "" /\ tries = 0 /\ boCur = 0 /\ boReset = 0
   /\ hostChunk = cf.chunk
   /\ bufBytes = <<>> /\ bufCap = 0 /\ bufStart = 0 /\ chunkStart = 0 /\ chunkSize = 0
-  /\ finalChunk = FALSE /\ retryCur = 0 /\ chunkURL = NoURL /\ hashed = <<>>
+  /\ finalChunk = FALSE /\ retryCur = 0 /\ noProgress = 0 /\ chunkURL = NoURL /\ hashed = <<>>
   /\ blobs = IF Pre = NoFile THEN <<>> ELSE (DDig :> Pre)
   /\ sess = [open |-> FALSE, data |-> <<>>, tok |-> 0, short |-> FALSE]
   /\ mounted = FALSE /\ nPartial = 0 /\ nFault = 0 /\ nEarly = 0 /\ refused = FALSE /\ minViol = FALSE
@@ -181,7 +184,7 @@ MountR ==
      ELSE pc' = "post" /\ UNCHANGED <<putURL, result, retD>>
   /\ CloseIf2xx
   /\ UNCHANGED <<cf, rdPos, readOnce, req, rsp, ret, tries, bufBytes, bufCap, bufStart, chunkStart, chunkSize,
-                 finalChunk, retryCur, chunkURL, hashed, svars, tmpFile>>
+                 finalChunk, retryCur, noProgress, chunkURL, hashed, svars, tmpFile>>
 
 \* blobGetUploadURL
 Post ==
@@ -197,7 +200,7 @@ PostR ==
      ELSE Fail /\ UNCHANGED <<hostChunk, putURL>>     \* no session to cancel
   /\ CloseIf2xx
   /\ UNCHANGED <<cf, rdPos, readOnce, retD, req, rsp, ret, tries, bufBytes, bufCap, bufStart, chunkStart, chunkSize,
-                 finalChunk, retryCur, chunkURL, hashed, svars, tmpFile>>
+                 finalChunk, retryCur, noProgress, chunkURL, hashed, svars, tmpFile>>
 
 TryPut ==
   /\ pc = "tryput"
@@ -255,7 +258,7 @@ ChInit ==
   /\ pc = "ch_init"
   /\ bufCap' = IF hostChunk > 0 THEN hostChunk ELSE DefChunk
   /\ bufBytes' = <<>> /\ bufStart' = 0 /\ chunkStart' = 0 /\ chunkSize' = 0
-  /\ finalChunk' = FALSE /\ retryCur' = 0 /\ hashed' = <<>>
+  /\ finalChunk' = FALSE /\ retryCur' = 0 /\ noProgress' = 0 /\ hashed' = <<>>
   /\ chunkURL' = putURL                      \* copy, including a digest parameter left by Full
   /\ pc' = "loop"
   /\ UNCHANGED <<cf, cvars, hvars, hostChunk, svars, tmpFile>>
@@ -280,7 +283,7 @@ Fill ==
              /\ chunkSize' = n
              /\ pc' = "fill"
      ELSE pc' = "slice" /\ UNCHANGED <<bufStart, bufBytes, rdPos, hashed, finalChunk, chunkSize>>
-  /\ UNCHANGED <<cf, putURL, readOnce, result, retD, hvars, hostChunk, bufCap, chunkStart, retryCur, chunkURL, svars, tmpFile>>
+  /\ UNCHANGED <<cf, putURL, readOnce, result, retD, hvars, hostChunk, bufCap, chunkStart, retryCur, noProgress, chunkURL, svars, tmpFile>>
 
 \* "next chunk is inside the existing buf": the re-slice also gives up the capacity in front
 Slice ==
@@ -294,7 +297,7 @@ Slice ==
         /\ bufCap' = IF inside THEN bufCap - k ELSE bufCap
         /\ IF ncs > 0 /\ chunkStart # nbs THEN pc' = "cancel"    \* "chunkStart != bufStart"
            ELSE IF ncs > 0 THEN pc' = "patch" ELSE pc' = "loop"
-  /\ UNCHANGED <<cf, cvars, hvars, hostChunk, chunkStart, finalChunk, retryCur, chunkURL, hashed, svars, tmpFile>>
+  /\ UNCHANGED <<cf, cvars, hvars, hostChunk, chunkStart, finalChunk, retryCur, noProgress, chunkURL, hashed, svars, tmpFile>>
 
 PatchSend ==
   /\ pc = "patch"
@@ -302,16 +305,22 @@ PatchSend ==
   /\ UNCHANGED <<cf, cvars, boCur, boReset, lvars, svars, tmpFile>>
 
 \* take offset and next location from a reply
+\* (since 94ee6b0) a reply that does not advance the offset counts; more than retryLimit of them
+\* in a row end the upload, whatever the status was
 Advance(r) ==
-  /\ chunkStart' = IF r.rng # NoRng THEN r.rng + 1 ELSE chunkStart + chunkSize
-  /\ chunkURL' = IF r.loc # NoURL THEN r.loc ELSE chunkURL
-  /\ pc' = "loop"
+  LET ncs   == IF r.rng # NoRng THEN r.rng + 1 ELSE chunkStart + chunkSize
+      stuck == ncs <= chunkStart
+  IN /\ chunkStart' = ncs
+     /\ noProgress' = IF stuck THEN noProgress + 1 ELSE 0
+     /\ IF stuck /\ noProgress + 1 > RetryLimit
+        THEN pc' = "cancel" /\ UNCHANGED chunkURL
+        ELSE chunkURL' = (IF r.loc # NoURL THEN r.loc ELSE chunkURL) /\ pc' = "loop"
 
 PatchR ==
   /\ pc = "patch_r"
   /\ IF rsp.st = 0 THEN NoClose ELSE CloseReset     \* resp.Close() also after an error status
   /\ CASE rsp.st = 0 ->                        \* no http response at all: "failed to send blob (chunk)"
-            pc' = "cancel" /\ UNCHANGED <<retryCur, chunkStart, chunkURL, req, ret, rsp, tries>>
+            pc' = "cancel" /\ UNCHANGED <<retryCur, noProgress, chunkStart, chunkURL, req, ret, rsp, tries>>
        [] rsp.st = 201 ->                      \* early accept, continue as for 202
             Advance(rsp) /\ UNCHANGED <<retryCur, req, ret, rsp, tries>>
        [] rsp.st # 201 /\ rsp.st >= 400 /\ rsp.st < 500 /\ rsp.loc # NoURL /\ rsp.rng # NoRng ->
@@ -321,7 +330,7 @@ PatchR ==
             \* ask for the status of the upload
             /\ retryCur' = retryCur + 1
             /\ Send(Request("GET", chunkURL, FALSE, 0, <<>>, NoDig), "status_r")
-            /\ UNCHANGED <<chunkStart, chunkURL>>
+            /\ UNCHANGED <<chunkStart, chunkURL, noProgress>>
        [] rsp.st = 202 ->
             retryCur' = (IF retryCur > 0 THEN retryCur - 1 ELSE 0) /\ Advance(rsp) /\ UNCHANGED <<req, ret, rsp, tries>>
   /\ UNCHANGED <<cf, cvars, hostChunk, bufBytes, bufCap, bufStart, chunkSize, finalChunk, hashed, svars, tmpFile>>
@@ -329,7 +338,7 @@ PatchR ==
 StatusR ==
   /\ pc = "status_r"
   /\ IF retryCur > RetryLimit \/ rsp.st # 204
-     THEN pc' = "cancel" /\ UNCHANGED <<chunkStart, chunkURL>>
+     THEN pc' = "cancel" /\ UNCHANGED <<chunkStart, chunkURL, noProgress>>
      ELSE Advance(rsp)
   /\ CloseIf2xx
   /\ UNCHANGED <<cf, cvars, req, rsp, ret, tries, hostChunk, bufBytes, bufCap, bufStart, chunkSize, finalChunk, retryCur, hashed, svars, tmpFile>>
@@ -343,7 +352,7 @@ Verify ==
           /\ chunkURL' = [chunkURL EXCEPT !.dg = @ + 1]
           /\ req' = Request("PUT", chunkURL', FALSE, 0, <<>>, H(hashed)) /\ ret' = "final_r" /\ pc' = "srv"
   /\ UNCHANGED <<cf, putURL, rdPos, readOnce, result, rsp, tries, boCur, boReset, hostChunk, bufBytes, bufCap, bufStart,
-                 chunkStart, chunkSize, finalChunk, retryCur, hashed, svars, tmpFile>>
+                 chunkStart, chunkSize, finalChunk, retryCur, noProgress, hashed, svars, tmpFile>>
 
 FinalR ==
   /\ pc = "final_r"
@@ -505,7 +514,7 @@ OCopy ==
   /\ tmpFile' = Src /\ hashed' = Src /\ rdPos' = cf.len          \* io.Copy(tmpFile, TeeReader)
   /\ pc' = "o_verify"
   /\ UNCHANGED <<cf, putURL, readOnce, result, retD, hvars, hostChunk, bufBytes, bufCap, bufStart, chunkStart,
-                 chunkSize, finalChunk, retryCur, chunkURL, svars>>
+                 chunkSize, finalChunk, retryCur, noProgress, chunkURL, svars>>
 
 OVerify ==
   /\ pc = "o_verify"
